@@ -262,3 +262,19 @@ Theorem formats_same_gen f f' ps : f <> FNull -> f' <> FNull -> format_output f 
 Proof. intros H H'. destruct f, f'; try reflexivity; contradiction. Qed.
 Theorem ignored_not_shown_gen nc p : p_sev p = SevIgnored -> shown false nc p = false.
 Proof. intro H. unfold shown. rewrite H. simpl. apply andb_false_r. Qed.
+
+(* ---------- failed packages in the import cone ---------- *)
+Theorem failed_dep_kept_gen all eff ps p :
+  In p ps -> load_error (p_cat p) = true -> In p (lint_package all eff PFailedDep ps).
+Proof. intros I H. simpl. apply filter_In. auto. Qed.
+Lemma load_error_exits all fail cat : load_error cat = true -> should_exit all fail cat = true.
+Proof.
+  intro H. apply should_exit_spec. left.
+  unfold load_error in H. apply mem_In in H. destruct H as [<-|[<-|[]]]; simpl; auto.
+Qed.
+Theorem load_error_exit_gen f all fail si l p :
+  f <> FSarif -> In p l -> load_error (p_cat p) = true -> shown si false p = true ->
+  exit_status f all fail si false l = 1%Z.
+Proof.
+  intros Hf I H S. apply exit_iff_gen. split; [exact Hf|]. exists p. repeat split; auto. apply load_error_exits. exact H.
+Qed.
